@@ -280,6 +280,11 @@ func successPathsOf(v ssa.Value, r *ssa.Return, b *ssa.BasicBlock, reachable map
 		sp := SuccessPath{Ret: r}
 		if c, _ := CallOf(ov); c != nil {
 			sp.FromCall = c
+			if translatesParam(c) {
+				// `return v.err()`: the helper maps a verdict value to an error; whether the
+				// verdict is the accepting one where it is returned is a fact about values
+				sp.Uncertain = true
+			}
 		} else if !isNilConst(ov) {
 			switch x := ov.(type) {
 			case *ssa.UnOp:
@@ -296,6 +301,57 @@ func successPathsOf(v ssa.Value, r *ssa.Return, b *ssa.BasicBlock, reachable map
 		return []SuccessPath{sp}
 	}
 	return nil
+}
+
+// translatesParam: the call's callee is a repository function that returns a nil error only
+// under a comparison of one of its parameters with a constant (an enum-to-error translation),
+// and the corresponding argument is not a constant at the call.
+func translatesParam(c ssa.CallInstruction) bool {
+	callee := c.Common().StaticCallee()
+	if callee == nil || len(callee.Blocks) == 0 || c.Common().IsInvoke() {
+		return false
+	}
+	nilReturns := 0
+	for _, r := range Returns(callee) {
+		isNil := false
+		for _, res := range r.Results {
+			if isNilConst(res) && isErrorType(res.Type()) {
+				isNil = true
+			}
+		}
+		if !isNil {
+			continue
+		}
+		nilReturns++
+		guarded := false
+		for _, f := range DomConds(r.Block()) {
+			bo, ok := f.If.Cond.(*ssa.BinOp)
+			if !ok {
+				continue
+			}
+			for _, pair := range [][2]ssa.Value{{bo.X, bo.Y}, {bo.Y, bo.X}} {
+				p, isP := Unwrap(pair[0]).(*ssa.Parameter)
+				_, isC := pair[1].(*ssa.Const)
+				if !isP || !isC {
+					continue
+				}
+				if _, basic := p.Type().Underlying().(*types.Basic); !basic {
+					continue
+				}
+				for i, q := range callee.Params {
+					if q == p && i < len(c.Common().Args) {
+						if _, argConst := c.Common().Args[i].(*ssa.Const); !argConst {
+							guarded = true
+						}
+					}
+				}
+			}
+		}
+		if !guarded {
+			return false
+		}
+	}
+	return nilReturns > 0
 }
 
 // BoolTrueSuccess: success = the boolean result #idx may be true.
